@@ -129,13 +129,13 @@ func init() {
 		NotCovered: "case mapping, comparison, grapheme segmentation, slicing and searching results: they depend on string contents and on the Unicode tables of the Go library, not on the shape of the code.",
 	}
 	props["C21"] = &PropSpec{
-		Rules:      []string{"reflags/rw"},
-		Decides:    "one clause only, the flags: each of the six regex flags has one letter, and that letter maps to that flag along every chain that spells it (flag table, Elk lexer -> flag token -> Elk parser, regex parser's scoped groups), and exactly the flags i, m, s, U - whose meaning in Go's RE2 equals the Elk meaning - are passed through to Go's engine. If these disagree, every literal or composed regex using the flag compiles to a pattern with another meaning.",
+		Rules:      []string{"reflags/rw", "reflags/effective", "regex/compose-ambient"},
+		Decides:    "the flags only: every flag is either interpreted by the transpiler itself or written into the Go pattern by the entry point of the translation (a flag that is neither changes nothing); `+` compiles its operands, embedded with their own enabled flags, without ambient flags; each of the six regex flags has one letter, and that letter maps to that flag along every chain that spells it (flag table, Elk lexer -> flag token -> Elk parser, regex parser's scoped groups), and exactly the flags i, m, s, U - whose meaning in Go's RE2 equals the Elk meaning - are passed through to Go's engine. If these disagree, every literal or composed regex using the flag compiles to a pattern with another meaning.",
 		NotCovered: "everything else: equivalence of the language of the Elk pattern and of the emitted RE2 text (character classes, escapes, quantifiers, extended-mode whitespace and comments) quantifies over subject strings and is not decided here.",
 	}
 	props["C30"] = &PropSpec{
-		Rules:      []string{"ops/token-family"},
-		Decides:    "one clause only, the comparison operators of relational and literal patterns: the opcode the compiler hands to the pattern helpers under `case token.T` (== != =~ !~ === !== < <= > >=) belongs to the family the compiler's own operator table assigns to T in expressions, so `case < 5` tests what `x < 5` tests.",
+		Rules:      []string{"ops/token-family", "pattern/or-binder-first"},
+		Decides:    "two clauses. Binding under a short circuit: wherever the compiler builds an alternative pattern from an operand that can bind variables and one that cannot (`P?` is `P || nil`), the binding operand runs first, so a value the other operand matches cannot leave the variables of P unassigned. The comparison operators of relational and literal patterns: the opcode the compiler hands to the pattern helpers under `case token.T` (== != =~ !~ === !== < <= > >=) belongs to the family the compiler's own operator table assigns to T in expressions, so `case < 5` tests what `x < 5` tests.",
 		NotCovered: "first-match order, binding of nested parts, exhaustiveness, and every other pattern form: relations between compiled code and a reference matcher over all values.",
 	}
 	props["C32"] = &PropSpec{
@@ -164,8 +164,8 @@ func init() {
 		NotCovered: "agreement of the arithmetic with the proleptic Gregorian calendar, a + (b - a) == b, and the values produced by parsing: they depend on date values and on Go's time package.",
 	}
 	props["C23"] = &PropSpec{
-		Rules:      []string{"range/kind-matrix", "native/argrep", "cover/reset"},
-		Decides:    "three agreement conditions of the range and iterator code: for each of the eight range kinds, is_left_closed / is_right_closed answer what the containment test's comparison with Start / End implies; the native ==, contains and friends of ranges (and of every other class) read their `any` argument only through checked accessors; every iterator's Reset re-derives the state its constructor derived from the collection.",
+		Rules:      []string{"range/kind-matrix", "range/literal-and-loop-tables", "native/argrep", "cover/reset"},
+		Decides:    "four agreement conditions of the range and iterator code: a range literal is the same kind for the type checker, the constant folder and the NEW_RANGE instruction for every operator and every combination of present bounds, and the counting loop a `for in` over a range (literal, or variable of a range class) is lowered to starts and stops where that kind's containment test says; for each of the eight range kinds, is_left_closed / is_right_closed answer what the containment test's comparison with Start / End implies; the native ==, contains and friends of ranges (and of every other class) read their `any` argument only through checked accessors; every iterator's Reset re-derives the state its constructor derived from the collection.",
 		NotCovered: "agreement of map, filter, reduce, zip, slicing and range iteration with a list model: relations over element sequences.",
 	}
 	props["C25"] = &PropSpec{
